@@ -79,7 +79,7 @@ type Engine struct {
 	full     bool // read every view completely (replay / shrinking)
 	held     map[string][]*heldReader
 	lastOp   string
-	baseSeen map[string]bool
+	prevOK   map[uint64]bool // reads that were made and right at the previous check
 }
 
 var versions = []string{"0.13.2", "0.13.4", "0.14.0", "0.14.1"}
@@ -89,7 +89,7 @@ func NewEngine(cfg Config, r *lib.RNG, driverPath, scratch string, res *lib.Resu
 	opt.NoClasses = true // declarations are generated here (own fixtures, rebuilt from the hash on replay)
 	g := lib.NewChainGen(r, cfg.SrcNew, opt)
 	e := &Engine{cfg: cfg, g: g, res: res, drained: map[felt.Felt]bool{}, stale: map[felt.Felt]map[felt.Felt]felt.Felt{}, seen: map[string]bool{},
-		scratch: scratch, stats: map[string]int{}, held: map[string][]*heldReader{}, baseSeen: map[string]bool{}}
+		scratch: scratch, stats: map[string]int{}, held: map[string][]*heldReader{}}
 	e.u = newUniverse(g)
 	e.nodes = append(e.nodes, &node{name: "src", kind: kindName(cfg.SrcNew), newSt: cfg.SrcNew, bc: g.Src, store: g.SrcDB})
 	for i, ns := range cfg.Dst {
